@@ -76,7 +76,7 @@ def check_sites(ctx):
             continue
         # ---------------- NEWLAYER
         if cls == "Partition" and fn.name == "deepen":
-            ok, how = deepen_ok(fc, fn)
+            ok, how = deepen_semantic(ctx.model, fc, fn)
             ctx.ob("R03-NEWLAYER", ok, fc.file, fc.qual, con, how, call.lineno)
             ctx.ob("R03-LEAF", ok, fc.file, fc.qual, con, how, call.lineno)
             continue
@@ -365,6 +365,25 @@ def fresh_child(ctx, fc, v, at, fc_of, depth=0):
         else:
             return False, "unrecognised definition"
     return True, "fresh child"
+
+
+_DEEPEN_CACHE = {}
+
+
+def deepen_semantic(model, fc, fn):
+    """deepen decided by abstract execution against its contract (deepen_step); the structural reading below is only the
+    fall-back when the interpreter meets a construct it does not cover."""
+    key = id(model)
+    if key not in _DEEPEN_CACHE:
+        from .. import deepen_step as DS
+        from .. import absint as A
+        try:
+            ok, how, _ = DS.check(model)
+            _DEEPEN_CACHE[key] = (ok, how)
+        except (A.Unsupported, AnalysisError) as ex:
+            ok2, how2 = deepen_ok(fc, fn)
+            _DEEPEN_CACHE[key] = (ok2, how2 if ok2 else "%s (abstract execution not applicable: %s)" % (how2, ex))
+    return _DEEPEN_CACHE[key]
 
 
 def deepen_ok(fc, fn):
